@@ -7,6 +7,7 @@ import (
 	"github.com/crate-crypto/go-ipa/bandersnatch/fr"
 	"github.com/crate-crypto/go-ipa/common"
 	"github.com/crate-crypto/go-ipa/ipa"
+	"github.com/crate-crypto/go-ipa/zzverif/vsched"
 	"verif.local/engine/core"
 	"verif.local/engine/ref"
 )
@@ -62,8 +63,30 @@ func c04Units(ctx *core.Ctx) []core.Unit {
 				in := fmt.Sprintf("poly=%s point=%s", p.Name, z.Text(16))
 				var proof ipa.IPAProof
 				var err error
-				if !guard(r, "c04.panic", "ipa.CreateIPAProof", in, func() { proof, err = ipa.CreateIPAProof(common.NewTranscript("ipa"), c, cm, a, ze) }) {
+				if !timed(r, "c04.panic", "ipa.CreateIPAProof", in, func() { proof, err = ipa.CreateIPAProof(common.NewTranscript("ipa"), c, cm, a, ze) }) {
 					continue
+				}
+				// the same opening under other CPU counts (MSM windows and splits differ): proof bytes identical, verdict unchanged
+				if vsched.Instrumented && (p.Name == "ramp" || p.Name == "prf0") {
+					for _, k := range []int{1, 2, 3, 17, 64, 65, 128, 300} {
+						setCPU(k)
+						var p2 ipa.IPAProof
+						var err2 error
+						var ok2 bool
+						if timed(r, "c04.panic", "ipa.CreateIPAProof", fmt.Sprintf("%s NumCPU=%d", in, k), func() {
+							p2, err2 = ipa.CreateIPAProof(common.NewTranscript("ipa"), c, cm, a, ze)
+							if err2 == nil {
+								ok2, err2 = ipa.CheckIPAProof(common.NewTranscript("ipa"), c, cm, p2, ze, frFromBig(pz))
+							}
+						}) {
+							r.Evals++
+							r.Nontrivial++
+							if err2 != nil || !ok2 || hx(ipaProofBytes(&p2)) != hx(ipaProofBytes(&proof)) {
+								vio(r, "c04.config", "ipa.CreateIPAProof/CheckIPAProof", fmt.Sprintf("%s NumCPU=%d", in, k), "same proof bytes as under the default CPU count, accepted for p(point)", fmt.Sprintf("accepted=%v err=%v", ok2, err2))
+							}
+						}
+					}
+					setCPU(0)
 				}
 				if err != nil {
 					vio(r, "c04.prove", "ipa.CreateIPAProof", in, "a proof", "error: "+err.Error())
